@@ -477,7 +477,54 @@ theorem C15_grows_with_dip_partial (rad : ℝ) (e u₁ u₂ : EV3) (hin : dot3 e
     nlinarith
   exact ⟨key, by nlinarith⟩
 
+/-- Grows with dip, for the exact column and any profile that does not increase outwards: let `ρ ≥ 0` be antitone in
+the radius.  For an endpoint strictly inside the sphere and two unit directions with `e·û₁ < e·û₂` (the first dips
+deeper), at every path length `s ≥ 0` the deeper chord is at a smaller radius, hence in denser material, and it is
+longer; so its column `∫₀^dist ρ(|e + s û|) ds` is at least as large.  (Integrability of the two integrands is a
+hypothesis; PREM itself is *not* antitone — its shell `[6151, 6346.6] km` has density increasing outwards — so for
+PREM the statement stays with the search's dip sweep; the three-layer model is antitone.) -/
+theorem C15_column_grows_with_dip_antitone (ρ : ℝ → ℝ) (hρ : AntitoneOn ρ (Set.Ici 0)) (hpos : ∀ r, 0 ≤ ρ r)
+    (rad : ℝ) (e u₁ u₂ : EV3) (hu₁ : dot3 u₁ u₁ = 1) (hu₂ : dot3 u₂ u₂ = 1)
+    (hin : dot3 e e < rad * rad) (hdot : dot3 e u₁ < dot3 e u₂)
+    (hd2 : 0 ≤ chordDist rad e u₂)
+    (hint1 : IntervalIntegrable (fun s => ρ (sampleRadius e u₁ 1 s)) MeasureTheory.volume 0 (chordDist rad e u₁))
+    (hint2 : IntervalIntegrable (fun s => ρ (sampleRadius e u₂ 1 s)) MeasureTheory.volume 0 (chordDist rad e u₂)) :
+    ∫ s in (0:ℝ)..(chordDist rad e u₂), ρ (sampleRadius e u₂ 1 s)
+      ≤ ∫ s in (0:ℝ)..(chordDist rad e u₁), ρ (sampleRadius e u₁ 1 s) := by
+  have hlen := (C15_grows_with_dip_partial rad e u₁ u₂ hin hdot 1 one_pos).1
+  -- pointwise: the deeper chord is at the smaller radius
+  have hrad : ∀ s, 0 ≤ s → sampleRadius e u₁ 1 s ≤ sampleRadius e u₂ 1 s := by
+    intro s hs
+    rw [C15_sample_radius_formula e u₁ hu₁, C15_sample_radius_formula e u₂ hu₂]
+    apply Real.sqrt_le_sqrt
+    nlinarith
+  have hpt : ∀ s, 0 ≤ s → ρ (sampleRadius e u₂ 1 s) ≤ ρ (sampleRadius e u₁ 1 s) := by
+    intro s hs
+    apply hρ _ _ (hrad s hs)
+    · exact Real.sqrt_nonneg _
+    · exact Real.sqrt_nonneg _
+  have hsub : IntervalIntegrable (fun s => ρ (sampleRadius e u₁ 1 s)) MeasureTheory.volume 0 (chordDist rad e u₂) := by
+    apply hint1.mono_set
+    rw [Set.uIcc_of_le hd2, Set.uIcc_of_le (by linarith)]
+    exact Set.Icc_subset_Icc (le_refl _) hlen.le
+  have hrest : IntervalIntegrable (fun s => ρ (sampleRadius e u₁ 1 s)) MeasureTheory.volume (chordDist rad e u₂) (chordDist rad e u₁) := by
+    apply hint1.mono_set
+    rw [Set.uIcc_of_le hlen.le, Set.uIcc_of_le (by linarith)]
+    exact Set.Icc_subset_Icc hd2 (le_refl _)
+  have h1 : ∫ s in (0:ℝ)..(chordDist rad e u₂), ρ (sampleRadius e u₂ 1 s)
+      ≤ ∫ s in (0:ℝ)..(chordDist rad e u₂), ρ (sampleRadius e u₁ 1 s) :=
+    intervalIntegral.integral_mono_on hd2 hint2 hsub (fun s hs => hpt s hs.1)
+  have h2 : 0 ≤ ∫ s in (chordDist rad e u₂)..(chordDist rad e u₁), ρ (sampleRadius e u₁ 1 s) :=
+    intervalIntegral.integral_nonneg hlen.le (fun s _ => hpos _)
+  have h3 := intervalIntegral.integral_add_adjacent_intervals hsub hrest
+  linarith
+
 /-! ## non-vacuity -/
+/-- a constant profile is antitone and non-negative (hypotheses of `C15_column_grows_with_dip_antitone`) -/
+example : AntitoneOn (fun _ : ℝ => (1.02:ℝ)) (Set.Ici 0) ∧ ∀ r : ℝ, (0:ℝ) ≤ (fun _ : ℝ => (1.02:ℝ)) r := by
+  constructor
+  · intro a _ b _ _; exact le_refl _
+  · intro r; norm_num
 
 /-- a vertical chord from 1 km depth: unit direction, positive discriminant and distance -/
 example : dot3 (⟨0, 0, -1⟩ : EV3) ⟨0, 0, -1⟩ = 1 ∧ 0 < chordDisc 6371000 ⟨0, 0, 6370000⟩ ⟨0, 0, -1⟩ := by
